@@ -19,9 +19,11 @@ func init() {
 			"(5) SSTableInfo.Overlaps is the closed-interval overlap test (table over boundary-touching ranges); the block builder rejects keys that are not strictly ascending; " +
 			"(6) the SSTable list is sorted by recency at load (C01 rule); (7) WAL retention never collects the current log file and deletes by sequence only when MaxSeq < MinSequenceKeep. " +
 			"Added after blind round 4: the key range handed to the level-1 overlap test is the union of the selected files (decision table of one loop iteration: minimum and maximum updated independently); every sort.Slice comparator indexes the slice being sorted (no parallel key slice). " +
-			"Added after blind round 5: the default executor receives the tombstone tracker after it was defaulted (non-nil by construction).",
+			"Added after blind round 5: the default executor receives the tombstone tracker after it was defaulted (non-nil by construction). " +
+			"Added after blind round 6: the selection functions of the tiered strategy sort 'oldest first' by creation time, then file number, and by nothing else — decision table of the comparator (tree defect, repaired: ad3c014 — file numbers restart at every open, a newer level-0 file could leave the level before an older one). " +
+			"Added after blind round 6: CompactRange's selection is closed: the range grows to the keys of every selected file (guarded widening of both ends) and the search repeats until a round adds nothing (tree defect, repaired: c88b148 — whole files moved below older files that shared their out-of-range keys).",
 		NotDecided: "equality of merged views for all workloads (values); which selections a workload triggers; the interaction 'log file retired while its data is only in memory' (the code has no notion of flushed-up-to: remark, not verdict).",
-		Rules:      []func(*Ctx, *Reporter){ruleCompactSourceOrder, ruleMergePolicy, ruleCompactDecisionTable, ruleTombstoneFilterTable, ruleInputsOutliveOutputs, ruleOverlapsTable, ruleBuilderStrictOrder, ruleRecencyAtLoad, ruleRetention, ruleUnionRange, ruleSortKeysFromSortedSlice, ruleExecutorGetsTracker, ruleSelectionTakesOldest},
+		Rules:      []func(*Ctx, *Reporter){ruleCompactSourceOrder, ruleMergePolicy, ruleCompactDecisionTable, ruleTombstoneFilterTable, ruleInputsOutliveOutputs, ruleOverlapsTable, ruleBuilderStrictOrder, ruleRecencyAtLoad, ruleRetention, ruleUnionRange, ruleSortKeysFromSortedSlice, ruleExecutorGetsTracker, ruleSelectionTakesOldest, ruleCompactRangeClosed},
 	})
 }
 
